@@ -61,6 +61,11 @@ Record nscope := { s_path : list str; s_kinds : list nkind; s_decls : list decl;
 
 Record module := { m_name : str; m_default : perm; m_decls : list decl;
                    m_access : list (str * bool); m_uses : list use_stmt; m_nested : list nscope }.
+(* is the scope reached by get_deps (see [deps] below); is it the body of an interface *)
+Definition counted_kind (k : nkind) : bool := match k with NRoutine | NIfBody => true | _ => false end.
+Definition counted (S : nscope) : bool := forallb counted_kind (s_kinds S).
+Definition is_body (S : nscope) : bool :=
+  match last (s_kinds S) NRoutine with NRoutine => false | _ => true end.
 
 Definition graph := list module.
 
@@ -175,16 +180,20 @@ Definition hosts (M : module) (S : nscope) : list nscope :=
    USE statements of S and of its hosts add.  Declarations local to procedures also end up in
    these dictionaries (C07); they are not part of this model. *)
 Definition nested_lower_model (c : cls) (g : graph) (order : list str) (M : module) (S : nscope) : list (str * ent) :=
-  snd (st_tabs (correlate_all c g order) M)
-  ++ flat_map (nested_imports_model c g order M) (hosts M S).
+  match c, is_body S with
+  | CVar, true =>
+    (* FortranInterface.correlate hands all_procs, all_types and all_absinterfaces of the host to
+       the body but no all_vars: the body's procedure starts from an empty dictionary *)
+    nested_imports_model c g order M S
+  | _, _ => snd (st_tabs (correlate_all c g order) M)
+            ++ flat_map (nested_imports_model c g order M) (hosts M S)
+  end.
 
 (* toposort_flatten over {module: modules it uses}: self-dependencies are discarded, every round
    takes the modules all of whose dependencies are done; None = CircularDependencyError *)
 (* get_deps: the USE statements of the module, and recursively those of `routines` and of the
    `procedure` of the entries of `interfaces` that have one (non-generic interface bodies).  The
    bodies of abstract interfaces and of generic interface blocks are not visited. *)
-Definition counted_kind (k : nkind) : bool := match k with NRoutine | NIfBody => true | _ => false end.
-Definition counted (S : nscope) : bool := forallb counted_kind (s_kinds S).
 Definition nested_targets (M : module) : list str :=
   flat_map (fun S => if counted S then map u_target (s_uses S) else []) (m_nested M).
 Definition resolved_targets (g : graph) (M : module) : list str :=
@@ -290,8 +299,6 @@ Definition scope (c : cls) (g : graph) (M : module) : list (str * ent) :=
 Definition nested_imports (c : cls) (g : graph) (M : module) (S : nscope) : list (str * ent) :=
   imports g (as_module M S) (accessible_n (length g) c g).
 (* an interface body has no host association (without IMPORT): only its own USE statements count *)
-Definition is_body (S : nscope) : bool :=
-  match last (s_kinds S) NRoutine with NRoutine => false | _ => true end.
 Definition nested_lower_spec (c : cls) (g : graph) (M : module) (S : nscope) : list (str * ent) :=
   if is_body S then nested_imports c g M S
   else scope c g M ++ flat_map (nested_imports c g M) (hosts M S).
